@@ -10,7 +10,7 @@ CLASS_PROPS = {
 
 
 def cfg(name, **kw):
-    c = dict(MaxSteps=4, MaxPerSrc=3, Cuts='FALSE', InstSetName='"two"', PanicSrcs='{0}', SyncSetName='"none"')
+    c = dict(MaxSteps=4, MaxPerSrc=3, Cuts='FALSE', InstSetName='"two"', PanicSrcs='{0}', SyncSetName='"none"', TailSetName='"none"')
     c.update(kw)
     lines = ['SPECIFICATION Spec', 'CONSTANTS'] + [' %s = %s' % (k, v) for k, v in c.items()]
     lines += ['INVARIANTS TypeOK Grammar ClosedReleasesAll EmitCase']
@@ -21,7 +21,7 @@ HO_CLASS_PROPS = dict(CLASS_PROPS, **{'sub': ['C05', 'C15', 'C14'], 'blocked': [
 
 
 def ho_cfg(name, **kw):
-    c = dict(MaxInner=2, MaxSteps=5, MaxPerSrc=3, Cuts='TRUE', InstSetName='"all"')
+    c = dict(MaxInner=2, MaxSteps=5, MaxPerSrc=3, Cuts='TRUE', InstSetName='"all"', TailSetName='"none"')
     c.update(kw)
     lines = ['SPECIFICATION Spec', 'CONSTANTS'] + [' %s = %s' % (k, v) for k, v in c.items()]
     lines += ['INVARIANTS TypeOK Grammar ClosedReleasesAll ConcatOneAtATime CollectFirst EmitCase']
@@ -30,7 +30,8 @@ def ho_cfg(name, **kw):
 
 def run_ho(rep, pid, thorough):
     """HO.tla: higher-order operators over an ASYNCHRONOUS outer source (MergeAll / MergeMap / ConcatAll / FlatMap / CombineLatestAll / ZipAll)."""
-    cfgs = [ho_cfg('ho-all', MaxSteps=6 if thorough else 5), ho_cfg('ho-all-nocut', MaxSteps=7 if thorough else 6, Cuts='FALSE')]
+    cfgs = [ho_cfg('ho-all', MaxSteps=6 if thorough else 5), ho_cfg('ho-all-nocut', MaxSteps=7 if thorough else 6, Cuts='FALSE'),
+            ho_cfg('ho-all-downstream-cut', MaxSteps=7 if thorough else 6, Cuts='FALSE', TailSetName='"cuts"')]
     pp.run(rep, pid, cfgs, modes='ctl-unsafe,ctl-safe', module='HOGen', replay_cmd='replay-multi', class_props=HO_CLASS_PROPS, prefix='multi.')
 
 
@@ -49,6 +50,7 @@ def run(rep, pid, thorough):
             cfg('multi-two-sync-end', MaxSteps=4 if thorough else 3, MaxPerSrc=2, Cuts='TRUE', SyncSetName='"ends"'),
             cfg('multi-two-sync-end-panicking-teardown', MaxSteps=3 if thorough else 2, MaxPerSrc=2, Cuts='TRUE', SyncSetName='"ends"', PanicSrcs='{1, 2}'),
             cfg('multi-three-sync-end', MaxSteps=3 if thorough else 2, MaxPerSrc=2, Cuts='TRUE', SyncSetName='"ends"', InstSetName='"three"'),
+            cfg('multi-two-downstream-cut', MaxSteps=5 if thorough else 4, MaxPerSrc=3, TailSetName='"cuts"'),
             cfg('multi-three', MaxSteps=5 if thorough else 4, MaxPerSrc=2, InstSetName='"three"')]
     pp.run(rep, pid, cfgs, modes='ctl-unsafe,ctl-safe', module='MultiGen', replay_cmd='replay-multi', class_props=CLASS_PROPS, prefix='multi.')
 
